@@ -726,3 +726,68 @@ def const_value(prog, fi, e):
         if vals and all(v is not None for v in vals) and len({v.value for v in vals}) == 1:
             return vals[0]
     return None
+
+
+def expanded_keywords(prog, fi, call: ast.Call):
+    """(name -> value, complete): the keywords of a call including those of its `**<dict>` expansions when the dictionary
+    can be read — a dict literal / dict(...) call bound once to a local, or returned by a (precisely resolved) helper of
+    the package as its only return value; values of a helper's dictionary are written in the helper's parameters, which
+    are replaced by the arguments of the call.  complete is False when some expansion could not be read"""
+    import copy
+
+    out = {k.arg: k.value for k in call.keywords if k.arg}
+    complete = True
+    for k in call.keywords:
+        if k.arg is not None:
+            continue
+        e = k.value
+        seen = 0
+        while isinstance(e, ast.Name) and seen < 3:
+            from ..dataflow import all_def_values
+
+            vals = [v for v in all_def_values(fi.node, e.id) if v is not None]
+            if len(vals) != 1:
+                break
+            e = vals[0]
+            seen += 1
+        d = None
+        if isinstance(e, ast.Dict) and all(isinstance(q, ast.Constant) for q in e.keys):
+            d = {q.value: v for q, v in zip(e.keys, e.values)}
+        elif isinstance(e, ast.Call) and isinstance(e.func, ast.Name) and e.func.id == "dict" and not e.args and all(q.arg for q in e.keywords):
+            d = {q.arg: q.value for q in e.keywords}
+        elif isinstance(e, ast.Call):
+            try:
+                tg = prog.resolve_call(fi, e)
+                hs = list(tg.funcs()) if tg.precise else []
+            except Exception:  # noqa: BLE001
+                hs = []
+            if len(hs) == 1:
+                h = hs[0]
+                rets = [y.value for y in walk_no_nested(h.node) if isinstance(y, ast.Return) and y.value is not None]
+                if len(rets) == 1:
+                    r = rets[0]
+                    hd = None
+                    if isinstance(r, ast.Dict) and all(isinstance(q, ast.Constant) for q in r.keys):
+                        hd = {q.value: v for q, v in zip(r.keys, r.values)}
+                    elif isinstance(r, ast.Call) and isinstance(r.func, ast.Name) and r.func.id == "dict" and not r.args and all(q.arg for q in r.keywords):
+                        hd = {q.arg: q.value for q in r.keywords}
+                    if hd is not None:
+                        bind = dict(named_args(e))
+                        a_ = h.node.args
+                        for q_, dflt in zip(a_.args[len(a_.args) - len(a_.defaults):], a_.defaults):
+                            bind.setdefault(q_.arg, dflt)
+                        for q_, dflt in zip(a_.kwonlyargs, a_.kw_defaults):
+                            if dflt is not None:
+                                bind.setdefault(q_.arg, dflt)
+
+                        class _S(ast.NodeTransformer):
+                            def visit_Name(self, n_):
+                                return copy.deepcopy(bind[n_.id]) if isinstance(n_.ctx, ast.Load) and n_.id in bind else n_
+
+                        d = {kk: _S().visit(copy.deepcopy(vv)) for kk, vv in hd.items()}
+        if d is None:
+            complete = False
+        else:
+            for kk, vv in d.items():
+                out.setdefault(kk, vv)
+    return out, complete
